@@ -1,7 +1,9 @@
 From Coq Require Import Extraction ExtrOcamlBasic.
-From PV Require Import Base.Bytes Base.Outcome Base.DrvBase Model.Der Model.Sec Model.Wif Spec.DerStrictSpec.
+From PV Require Import Base.Bytes Base.Outcome Base.DrvBase Model.Der Model.Sec Model.Wif Model.PresentC10 Spec.DerStrictSpec.
 Extraction "../ml/c10.ml" drv_base
   sigencode_der sigdecode_der encode_integer encode_length read_length remove_integer remove_sequence
   bip66_valid
   to_bytes_32 public_pair_to_sec sec_to_public_pair points_for_x key_from_sec key_public key_public_arg key_private
-  wif_payload parse_wif_payload.
+  wif_payload parse_wif_payload
+  sec_to_public_pair_arg key_from_sec_arg is_sec_compressed_arg sigdecode_der_arg key_private_arg sigencode_der_arg
+  public_pair_to_sec_arg.
